@@ -385,6 +385,7 @@ type vfLimSupport struct {
 	ControlVerified      bool   `json:"control_verified"`       // with a token available a fresh token verifies and is cached
 	ControlJWKSCalls     int64  `json:"control_jwks_calls"`     // key-set lookups of that verification (>= 1)
 	Drained              bool   `json:"drained"`                // limiter brought to refuse
+	RefusedNoJti         bool   `json:"refused_no_jti"`         // a token without jti presented while the limiter is drained: refused, nothing examined
 	RefusedErr           bool   `json:"refused_err"`            // the verification attempted then returned an error
 	RefusedJWKSCalls     int64  `json:"refused_jwks_calls"`     // key-set lookups during it (must be 0)
 	RefusedCached        bool   `json:"refused_cached"`         // must be false
@@ -449,6 +450,14 @@ func vfLimSupportRun(t testing.TB, p *vfLimProvider) vfLimSupport {
 	}
 	s.Drained = !lim.AllowN(at, 1) && lim.TokensAt(time.Now()) < 1
 
+	// a token WITHOUT a jti claim (legal; some providers never send one) is refused just the same while the bucket is empty
+	{
+		now := time.Now().Unix()
+		tokC := p.sign(t, map[string]interface{}{"iss": vfLimIssuer(inst), "aud": "vf-client", "sub": "vf-user-nojti", "email": "u@example.com",
+			"iat": now - 5, "exp": now + 600, "nonce": "c"})
+		jc := atomic.LoadInt64(&fake.calls)
+		s.RefusedNoJti = inst.VerifyToken(tokC) != nil && atomic.LoadInt64(&fake.calls) == jc && !vfLimTokenCached(inst, tokC)
+	}
 	tokB, jtiB := mint("b")
 	c0, b0 := vfLimCacheSizes(inst)
 	j0 := atomic.LoadInt64(&fake.calls)
@@ -606,7 +615,7 @@ func vfLimSupportRun(t testing.TB, p *vfLimProvider) vfLimSupport {
 		}
 	}
 
-	s.OK = s.ControlVerified && s.ControlJWKSCalls >= 1 && s.Drained && s.RefusedErr && s.RefusedJWKSCalls == 0 &&
+	s.OK = s.ControlVerified && s.ControlJWKSCalls >= 1 && s.Drained && s.RefusedErr && s.RefusedNoJti && s.RefusedJWKSCalls == 0 &&
 		!s.RefusedCached && s.RefusedCacheGrowth == 0 && !s.RefusedReplayRecord && s.AcceptedAfterRefill &&
 		s.CachedOK == s.CachedCalls && !s.CachedConsumedTokens && s.SessionRequests > 0 && s.SessionForwarded == s.SessionRequests &&
 		s.RefreshControlForwarded && s.RefreshRefusedWhenDrained && s.LoginBurst > 0 && s.LoginBurstAdmitted == s.LoginBurst &&
@@ -615,6 +624,8 @@ func vfLimSupportRun(t testing.TB, p *vfLimProvider) vfLimSupport {
 		switch {
 		case !s.ControlVerified || s.ControlJWKSCalls < 1 || !s.Drained:
 			s.Why = "harness precondition not met (control verification / draining)"
+		case !s.RefusedNoJti:
+			s.Why = "a verification of a token without a jti claim was admitted (or examined) although the limiter held no token"
 		case !s.RefusedErr:
 			s.Why = "a verification was admitted although the limiter held no token"
 		case s.RefusedJWKSCalls != 0 || s.RefusedCached || s.RefusedCacheGrowth != 0 || s.RefusedReplayRecord:
